@@ -419,6 +419,24 @@ def run(ctx: Context) -> None:
                     return (any(t in (f"{dp}.encoding.get('{key}') is None", f"{dp}.encoding.get('{key}', None) is None") for t in texts)
                             or any(t in (f"{dp}.encoding.get('{key}') is not None", f"{dp}.encoding.get('{key}', None) is not None") for t in neg))
                 no_fill = _absent_or_none('_FillValue') and _absent_or_none('missing_value')
+                # ... and the refusal is not narrowed by anything else: a plain packed integer variable (no scale_factor) is float in memory just
+                # the same once it has been decoded with a fill value elsewhere; any further conjunct lets some packed variable through to the nan
+
+                def _explained(t_, pol_):
+                    if 'dtype' in t_ and ('is not None' in t_ or ' in ' in t_) and pol_:
+                        return True
+                    if 'dtype' in t_ and 'is None' in t_ and not pol_:
+                        return True
+                    if ('.kind in' in t_ or 'numpy.integer' in t_ or 'issubdtype' in t_) and pol_:
+                        return True
+                    if "'_FillValue'" in t_ or "'missing_value'" in t_:
+                        return True
+                    if 'getmask' in t_ or 'is_masked' in t_ or '.attrs' in t_:
+                        return not pol_
+                    return False
+                extra_ = sorted(t_ for t_, pol_ in g if not _explained(t_, pol_))
+                if extra_:
+                    no_fill = False
                 if kind_ok and no_fill:
                     packed = n
         third = sorted(rets, key=lambda r: r.lineno)[-1] if rets else None
